@@ -8,7 +8,7 @@ CONSTANTS
   SameTime <- Same
   MaxBlocks = 2
   MaxItems = 3
-  MaxGroup = 2
+  MaxGroup = 3
   MaxExecOps = 2
   MaxLocalOps = 1
   SModes = {"both", "wnr", "rnw"}
